@@ -11,25 +11,44 @@ Open Scope Z_scope.
 (* What Seek returns, what it leaves in c.offset and how many list-offsets requests it
    sends, for every current offset, argument, whence (with or without SeekDontCheck) and
    every (first, last) the broker holds.  t is the arithmetic of the property:
-   SeekStart first+offset, SeekEnd last-offset, SeekCurrent current+offset, SeekAbsolute offset.
-   - SeekDontCheck with SeekAbsolute/SeekCurrent: t, unchecked, no request;
-   - SeekAbsolute to the offset the connection already has: returned unchecked, no request
-     (see C19_seek_range_check_refuted);
+   SeekStart first+offset, SeekEnd last-offset, SeekAbsolute offset, SeekCurrent
+   current+offset where current is the position Conn.Offset reports (first for the
+   FirstOffset placeholder of a fresh connection, last for LastOffset).
+   - SeekDontCheck with SeekAbsolute, or with SeekCurrent from a resolved offset: t,
+     unchecked, no request;
+   - SeekAbsolute to the offset the connection already has: returned as is, no request
+     (a documented optimisation, see C19_seek_unchanged_shortcut_example);
    - otherwise t when first <= t <= last, else OffsetOutOfRange and c.offset unchanged
-     (SeekDontCheck is ignored for SeekStart/SeekEnd, as documented). *)
+     (SeekDontCheck is ignored for SeekStart/SeekEnd, as documented, and for SeekCurrent
+     from a placeholder, which only the broker can resolve). *)
 Theorem C19_seek_spec : forall cur off whence f l,
   in_i64 cur -> in_i64 off -> valid_offsets f l ->
   let w := seek_whence whence in
   let t := seek_target cur off w f l in
   (w = SeekStart \/ w = SeekAbsolute \/ w = SeekEnd \/ w = SeekCurrent) ->
-  (w = SeekCurrent -> in_i64 (cur + off)) ->
+  (w = SeekCurrent -> in_i64 (current_position cur f l + off)) ->
   seek cur off whence (OffsOk f l) =
-    if seek_dont whence && ((w =? SeekAbsolute) || (w =? SeekCurrent)) then mk_seek (SeekOk t) t 0
+    if seek_unchecked whence cur then mk_seek (SeekOk t) t 0
     else if (w =? SeekAbsolute) && (off =? cur) then mk_seek (SeekOk cur) cur 0
     else if (f <=? t) && (t <=? l) then mk_seek (SeekOk t) t 2
     else mk_seek (SeekErr ErrOffsetOutOfRange) cur 2.
 Proof. exact seek_spec. Qed.
 Print Assumptions C19_seek_spec.
+
+(* in particular on a connection that has not been positioned yet (c.offset is the
+   FirstOffset placeholder, resp. LastOffset after seeking to the end without a check),
+   SeekCurrent moves relative to the partition's start (resp. end), range-checked,
+   with or without SeekDontCheck *)
+Theorem C19_seek_current_fresh : forall d whence f l,
+  in_i64 d -> valid_offsets f l -> seek_whence whence = SeekCurrent ->
+  seek FirstOffset d whence (OffsOk f l) =
+    (if (0 <=? d) && (f + d <=? l) then mk_seek (SeekOk (f + d)) (f + d) 2
+     else mk_seek (SeekErr ErrOffsetOutOfRange) FirstOffset 2) /\
+  seek LastOffset d whence (OffsOk f l) =
+    (if (d <=? 0) && (f <=? l + d) then mk_seek (SeekOk (l + d)) (l + d) 2
+     else mk_seek (SeekErr ErrOffsetOutOfRange) LastOffset 2).
+Proof. exact seek_current_fresh. Qed.
+Print Assumptions C19_seek_current_fresh.
 
 (* any failure (bad whence, out of range, broker error) leaves c.offset untouched *)
 Theorem C19_seek_error_keeps_offset : forall cur off whence b,
@@ -48,7 +67,7 @@ Theorem C19_seek_broker_error : forall cur off whence b f l code n,
   read_offsets b = (f, l, code, n) -> code <> 0 ->
   let w := seek_whence whence in
   (w = SeekStart \/ w = SeekAbsolute \/ w = SeekEnd \/ w = SeekCurrent) ->
-  seek_dont whence && ((w =? SeekAbsolute) || (w =? SeekCurrent)) = false ->
+  seek_unchecked whence cur = false ->
   (w =? SeekAbsolute) && (off =? cur) = false ->
   seek cur off whence b = mk_seek (SeekErr code) cur n.
 Proof. exact seek_broker_error. Qed.
@@ -61,27 +80,15 @@ Theorem C19_seek_bad_whence : forall cur off whence b,
 Proof. exact seek_bad_whence. Qed.
 Print Assumptions C19_seek_bad_whence.
 
-(* DISCREPANCY 1: the range check is skipped when SeekAbsolute names the offset the
-   connection already holds, also when that offset lies outside [first,last] — e.g. the
-   sentinel -2 of a fresh connection, or an offset the log has since been truncated past. *)
-Theorem C19_seek_range_check_refuted : exists cur f l,
+(* The unchanged-offset shortcut of C19_seek_spec at work: SeekAbsolute to the offset the
+   connection already holds is answered without asking the broker, so it is not
+   range-checked — e.g. the placeholder -2 of a fresh connection, or an offset the log
+   has since been truncated past.  Documented behaviour, not a defect. *)
+Theorem C19_seek_unchanged_shortcut_example : exists cur f l,
   valid_offsets f l /\ ~ (f <= cur <= l) /\
   seek cur cur SeekAbsolute (OffsOk f l) = mk_seek (SeekOk cur) cur 0.
-Proof. exact seek_range_check_refuted. Qed.
-Print Assumptions C19_seek_range_check_refuted.
-
-(* DISCREPANCY 2: c.offset holds the sentinels FirstOffset (-2, every fresh connection)
-   and LastOffset (-1); Conn.Offset reports them as (0, SeekStart) / (0, SeekEnd), but
-   SeekCurrent adds the requested delta to the sentinel itself: on a fresh connection
-   Seek(5, SeekCurrent) is out of range when first = 100 and yields 3 (not first+5) when first = 0. *)
-Theorem C19_seek_current_sentinel_refuted :
-  conn_offset FirstOffset = (0, SeekStart) /\
-  seek FirstOffset 5 SeekCurrent (OffsOk 100 200) = mk_seek (SeekErr ErrOffsetOutOfRange) FirstOffset 2 /\
-  seek FirstOffset 5 SeekCurrent (OffsOk 0 200) = mk_seek (SeekOk 3) 3 2 /\
-  conn_offset LastOffset = (0, SeekEnd) /\
-  seek LastOffset (-5) SeekCurrent (OffsOk 100 200) = mk_seek (SeekErr ErrOffsetOutOfRange) LastOffset 2.
-Proof. exact seek_current_sentinel_refuted. Qed.
-Print Assumptions C19_seek_current_sentinel_refuted.
+Proof. exact seek_unchanged_shortcut_example. Qed.
+Print Assumptions C19_seek_unchanged_shortcut_example.
 
 (* ReadFirstOffset / ReadLastOffset / ReadOffset: the answer for the one partition asked *)
 Theorem C19_read_offset_exact : forall t p,
@@ -267,16 +274,15 @@ Theorem C19_listoffsets_client_first_last : forall p f l e1 e2 ep1 ep2,
 Proof. exact listoffsets_client_first_last. Qed.
 Print Assumptions C19_listoffsets_client_first_last.
 
-(* DISCREPANCY 3: ReadPartitions has no place for the per-partition error code: a partition
-   the broker reports as leaderless (error 5, leader -1) comes back without any error and
-   with Leader = the zero Broker, whose ID 0 is a legitimate broker id. *)
-Theorem C19_read_partitions_partition_error_refuted : exists r p,
-  md_topics r = [{| mt_error := 0; mt_name := [116%N]; mt_internal := false;
-                    mt_parts := [{| mp_error := 5; mp_index := 0; mp_leader := -1;
-                                    mp_replicas := [0]; mp_isr := []; mp_offline := [] |}] |}] /\
-  read_partitions false [116%N] r = PartsOk [p] /\ pt_error p = 0 /\ b_id (pt_leader p) = 0.
-Proof. exact read_partitions_partition_error_refuted. Qed.
-Print Assumptions C19_read_partitions_partition_error_refuted.
+(* ReadPartitions reports every partition's own error code on that partition (and nothing
+   else changes): topic, id and error of the returned partitions are those of the response,
+   in order *)
+Theorem C19_read_partitions_partition_errors : forall v6 ct r l,
+  read_partitions v6 ct r = PartsOk l ->
+  map (fun p => (pt_topic p, pt_id p, pt_error p)) l =
+  flat_map (fun t => map (fun p => (mt_name t, mp_index p, mp_error p)) (mt_parts t)) (md_topics r).
+Proof. exact read_partitions_partition_errors. Qed.
+Print Assumptions C19_read_partitions_partition_errors.
 
 (* ======================= non-vacuity ======================= *)
 
@@ -285,6 +291,8 @@ Example C19_seek_example :
   seek 150 20 SeekStart (OffsOk 100 200) = mk_seek (SeekOk 120) 120 2 /\
   seek 150 101 SeekStart (OffsOk 100 200) = mk_seek (SeekErr 1) 150 2 /\
   seek 150 20 (SeekCurrent + SeekDontCheck) (OffsOk 100 200) = mk_seek (SeekOk 170) 170 0 /\
+  seek FirstOffset 5 SeekCurrent (OffsOk 100 200) = mk_seek (SeekOk 105) 105 2 /\
+  seek FirstOffset 5 (SeekCurrent + SeekDontCheck) (OffsOk 100 200) = mk_seek (SeekOk 105) 105 2 /\
   valid_offsets 100 200 /\ in_i64 150.
 Proof. repeat split; vm_compute; try reflexivity; intro H; discriminate H. Qed.
 
